@@ -25,6 +25,8 @@ HUGE = 1000000
 
 KEY_SKIP = "cursor-beyond-disk-skips-newest-disk-entry"
 KEY_PANIC = "limit-offset-sum-negative-panic"
+KEY_ESC = "term-search-misses-json-escaped-host-on-disk"
+SIG_KEYS = {"skip": KEY_SKIP, "esc": KEY_ESC}
 
 ACTIONS_MC = ["DoRec", "DoEnc", "AutoEnc", "DoApp", "DoRotate", "DoClear", "DoConf", "DoRestart", "DoSearch"]
 ACTIONS_GEN = ["rec", "enc", "app", "autoflush", "rotate", "clear", "conf", "restart"]
@@ -41,22 +43,44 @@ def _sum_negative(limit, offset):
     return limit != 0 and t < 0
 
 
+def window_ok(older, limit, universe, got):
+    """QueryLog!AdmissibleWindow (used here only to match a defect signature)."""
+    if got.get("st") != "ok":
+        return False
+    data, oldest = list(got.get("data") or []), got.get("oldest")
+    n = len(data)
+    if n > limit or n > len(universe) or data != list(universe[:n]):
+        return False
+    if n > 0:
+        return oldest == universe[n - 1]
+    if not universe and oldest == 0:
+        return True
+    if oldest <= 0 or (older > 0 and oldest >= older):
+        return False
+    return not universe or oldest > universe[0]
+
+
 def classify_query(q, got):
-    """q: the spec's table row <<older, limit, offset, term, status, class, data, oldest, sig>>;
+    """q: the spec's table row <<older, limit, offset, term, status, class, data, oldest, sigs, scan>>;
     got: the abstracted real reply.  Returns a known-finding key or None."""
-    older, limit, offset, cls, sig = q[0], q[1], q[2], q[5], q[8]
+    older, limit, offset, cls, sigs = q[0], q[1], q[2], q[5], q[8]
     if got.get("st") == "panic" and "slice bounds out of range" in (got.get("msg") or "") \
             and _sum_negative(limit, offset):
         return KEY_PANIC
-    if cls == "exact" and sig and got.get("st") == "ok" and older != 0 \
-            and list(got.get("data") or []) == list(sig[0]) and got.get("oldest") == sig[1]:
-        return KEY_SKIP
+    for name, data, oldest in sigs:
+        if name == "skip" and older == 0:
+            continue
+        if cls == "exact" and got.get("st") == "ok" and list(got.get("data") or []) == list(data) \
+                and got.get("oldest") == oldest:
+            return SIG_KEYS.get(name)
+        if cls == "window" and window_ok(older, limit, data, got):
+            return SIG_KEYS.get(name)
     return None
 
 
 def describe_query(q, got):
-    return "GET /control/querylog older_than=%s limit=%s offset=%s search=%s response_status=%s: spec %s %s oldest=%s, real %s %s oldest=%s %s" % (
-        q[0], q[1], q[2], q[3], q[4], q[5], q[6], q[7], got.get("st"), got.get("data"), got.get("oldest"),
+    return "GET /control/querylog older_than=%s limit=%s offset=%s search=%s response_status=%s (scan limit %s): spec %s %s oldest=%s, real %s %s oldest=%s %s" % (
+        q[0], q[1], q[2], q[3], q[4], q[9], q[5], str(q[6])[:120], q[7], got.get("st"), str(got.get("data"))[:120], got.get("oldest"),
         (got.get("msg") or "")[:80])
 
 
@@ -108,9 +132,10 @@ def build_graph(vectors):
             full = sorted(o["full"], key=lambda r: (not (r[3] == "none" and r[4] == "none"), r[3], r[4]))
             seen = set()
             tagged = [(r, "f") for r in full] + [(r, "d") for r in o["deflt"]] + [(r, "c") for r in o["chains"]] \
-                + [(r, "o") for r in o["offs"]] + [(r, "u") for r in o["curs"]] + [(r, "x") for r in o["odd"]]
+                + [(r, "o") for r in o["offs"]] + [(r, "u") for r in o["curs"]] + [(r, "x") for r in o["odd"]] \
+                + [(r, "w") for r in o["win"]]
             for r, tag in tagged:
-                pk = json.dumps(r[:5])
+                pk = json.dumps(r[:5] + [r[9]])
                 if pk in seen:
                     continue
                 seen.add(pk)
@@ -155,13 +180,15 @@ def replay_record(ctx, table, rec):
 
 
 # ------------------------------------------------------------------ direction B
-TRACE_EVS = {"init", "rec", "flush", "autoflush", "rotate", "clear", "conf", "restart", "search"}
+TRACE_EVS = {"init", "rec", "recn", "flush", "autoflush", "rotate", "clear", "conf", "restart", "search"}
 
 
 def run_history(ctx, hist, nrec, mem=None, big=False):
     tout = ctx.path("c07_trace_%d.ndjson" % hist)
     env = {"VERIF_OUT": tout, "VERIF_C07_HIST": str(hist), "VERIF_C07_RECORDS": str(nrec)}
-    if big:
+    if big == "scanlog":
+        env["VERIF_C07_SCANLOG"] = "1"
+    elif big:
         env["VERIF_C07_BIG"] = "1"
     if mem is not None:
         env["VERIF_C07_MEM"] = str(mem)
@@ -316,7 +343,7 @@ def _run_bindings(ctx):
                 r.get("diff") or "served JSON differs between %s and %s" % (r.get("first_at"), r.get("now_at"))))
 
     # ---------------- direction B
-    nhist, nrec = (2, 300) if ctx.quick else (4, 2000)
+    nhist, nrec = (2, 300) if ctx.quick else (5, 2000)
     binding_demo = None
     tlines = tbad = tflaky = 0
     tbytes = 0
@@ -329,6 +356,10 @@ def _run_bindings(ctx):
         big = (not ctx.quick) and hst == 1
         if big:
             mem = 200
+        if hst == 4:
+            # The log grows beyond the 50000 records one request scans; the
+            # selected entries lie behind them (real handler, real limit).
+            big, mem = "scanlog", 60000
         rows_b, sb = run_history(ctx, hst, nrec, mem=mem, big=big)
         if sb.get("discard"):
             ctx.log("history %d discarded: %s" % (hst, sb["discard"]))
